@@ -11,7 +11,8 @@ THEOREMS = ["C16_unit_spellings_agree", "C16_out_of_range_rejected",
             "C16_iso_spellings_agree", "C16_iso_string_agree", "C16_iso_and_integer_agree",
             "C16_parse_print_date", "C16_date_string_agree",
             "C16_sites_agree", "C16_sites_agree_nonneg", "C16_u64_fallback_wraps_negative",
-            "C16_prune_sound_outside_known", "C16_prune_sound_literal", "C16_prune_refuted"]
+            "C16_prune_sound_outside_known", "C16_prune_sound_literal", "C16_prune_refuted",
+            "C16_decimal_string_is_integer", "C16_all_string_spellings_agree"]
 RULE = ("instants (whole second t in year 1..9999 or a digit-band edge, plus a sub-second part) x spellings "
         "(RFC 3339 with random offset/fraction/separator, date-only at midnight, integer s/ms/us/ns as string "
         "and as JSON number, JSON float seconds) plus a malformed stream (mutated spellings); a case is "
